@@ -9,6 +9,7 @@ import (
 	"os/exec"
 	"path/filepath"
 	"strings"
+	"sync"
 	"testing"
 	"time"
 
@@ -34,11 +35,16 @@ type Mut struct {
 }
 
 type TotalCase struct {
-	Spec     *sm.ASpec              `json:"spec"`
-	Muts     []Mut                  `json:"muts,omitempty"`
-	Load     string                 `json:"load"` // "go", "json", "yaml"
-	Node     string                 `json:"node"`
-	NilBs    bool                   `json:"nilBs,omitempty"`
+	Spec  *sm.ASpec `json:"spec"`
+	Muts  []Mut     `json:"muts,omitempty"`
+	Load  string    `json:"load"` // "go", "json", "yaml"
+	Node  string    `json:"node"`
+	NilBs bool      `json:"nilBs,omitempty"`
+	// Crowd: three other machines of the same compiled specification
+	// (their own states, their own permanent bindings) are walked on
+	// goroutines of their own while the judged one is: a host with
+	// several machines must not be brought down by that either
+	Crowd    bool                   `json:"crowd,omitempty"`
 	Bs       map[string]interface{} `json:"bs"`
 	Messages []interface{}          `json:"messages"`
 	NilCtl   bool                   `json:"nilCtl,omitempty"`
@@ -257,6 +263,7 @@ func genTotal(t *rapid.T) TotalCase {
 	c.UseStep = rapid.IntRange(0, 3).Draw(t, "useStep") == 0
 	c.Deadline = rapid.SampledFrom([]int{0, 5, 30, 30}).Draw(t, "deadline")
 	c.ByCancel = rapid.Bool().Draw(t, "byCancel")
+	c.Crowd = rapid.IntRange(0, 5).Draw(t, "crowd") == 0
 	c.GoTyped = rapid.IntRange(0, 4).Draw(t, "goTyped") == 0
 	return c
 }
@@ -616,11 +623,11 @@ func checkTotal(c TotalCase) (v ev.Verdict) {
 	}
 	failing := false
 	for _, n := range c.Spec.Nodes {
-		if n.Action != nil && n.Action.Has("throw", "returnNull", "returnScalar", "outNaN", "spin") {
+		if n.Action != nil && n.Action.Has("throw", "returnNull", "returnScalar", "returnTrap", "outNaN", "spin") {
 			failing = true
 		}
 		for _, b := range n.Branches {
-			if b.Guard != nil && b.Guard.Has("throw", "returnNull", "returnScalar", "outNaN", "spin") {
+			if b.Guard != nil && b.Guard.Has("throw", "returnNull", "returnScalar", "returnTrap", "outNaN", "spin") {
 				failing = true
 			}
 		}
@@ -633,7 +640,40 @@ func checkTotal(c TotalCase) (v ev.Verdict) {
 	var w *core.Walked
 	var werr error
 	var s *core.Stride
+	var crowd sync.WaitGroup
+	var crowdMu sync.Mutex
+	crowdPanic := ""
+	if c.Crowd {
+		v.Class("other-machines-at-the-same-time")
+		for g := 0; g < 3; g++ {
+			crowd.Add(1)
+			go func(g int) {
+				defer crowd.Done()
+				defer func() {
+					if x := recover(); x != nil {
+						crowdMu.Lock()
+						crowdPanic = fmt.Sprint(x)
+						crowdMu.Unlock()
+					}
+				}()
+				for r := 0; r < 3; r++ {
+					bs := match.Bindings(jsongen.CopyMap(c.Bs))
+					if bs == nil {
+						bs = match.Bindings{}
+					}
+					bs["who!"], bs["cfg!"] = float64(g), map[string]interface{}{"g": float64(g)}
+					var ctl2 *core.Control
+					if !c.NilCtl {
+						wc := WalkCase{Limit: c.Limit, Break: c.Break}
+						ctl2 = wc.control()
+					}
+					spec.Walk(ctx, &core.State{NodeName: c.Node, Bs: bs}, copyMsgs(c.Messages), ctl2, nil)
+				}
+			}(g)
+		}
+	}
 	p, hung := withWatchdog(30*time.Second, func() {
+		defer crowd.Wait()
 		if c.UseStep {
 			var pending interface{}
 			if len(msgs) > 0 {
@@ -646,6 +686,10 @@ func checkTotal(c TotalCase) (v ev.Verdict) {
 	})
 	if hung {
 		v.Failf("processing did not return within 30 s")
+		return
+	}
+	if crowdPanic != "" {
+		v.Failf("another machine of the same specification, walked at the same time, panicked: %s", crowdPanic)
 		return
 	}
 	if p != "" {
